@@ -16,6 +16,10 @@
     decodes `signatures` on its own (no case folding), checks lengths, re-marshals the map (sorted keys, HTML
     escaping — undone by CanonicalJSON's compaction) and verifies over the canonical bytes.
 
+  * since round 3 (K7) `SignJSON` and `VerifyJSON` begin with `checkStrictJSON`: a message with duplicate member
+    names (any depth), lone surrogate escapes or invalid UTF-8 is refused before it is read — section "The text
+    gate" below (`strictJSON`, `signJSONText`, `verifyJSONText`); the value-level functions keep their names and types.
+
   The signed payload is `encodeCanon` of the object minus the exact keys `signatures` and `unsigned`
   (C01: `canonical t = encodeCanon (parse t)` on texts with well-formed Unicode).
 
@@ -302,16 +306,39 @@ def listKeyIDs (name : Bytes) (v : JVal) : Option (List Bytes) :=
 way: encoding/json keeps the LAST of two members with one name, gjson / sjson see the FIRST; `CompactJSON`
 DROPS the escape of a lone surrogate where the decoders read U+FFFD; encoding/json rewrites invalid UTF-8
 in member names to U+FFFD.  The gate walks the gjson view of the whole message (every depth, the
-`signatures` and `unsigned` members included): every string and member name must be valid UTF-8 whose
-surrogate escapes come in proper pairs (`checkStrictString` = `rawStringWellFormed`), and no object may have
-two members whose decoded names are equal.  What passes is exactly the domain C01 quantifies over, so the
-value-level functions above are only ever run on values every reader agrees on. -/
+`signatures` and `unsigned` members included): no object may have two members whose decoded names are equal,
+and in every string and member name the surrogate escapes must come in proper pairs.  `VerifyJSON`
+(`requireUTF8 = true`) also demands that every string and member name is valid UTF-8 (`checkStrictString` =
+`rawStringWellFormed`); `SignJSON` does not — `PDU.Sign` panics when signing fails, and the event constructors
+accept events with invalid UTF-8 in fields that redaction keeps — so on such input it behaves as before.
+What passes VerifyJSON's gate is exactly the domain C01 quantifies over. -/
 
-/-- `checkStrictJSON(message) == nil` -/
+mutual
+/-- `checkStrictValue(value, false) == nil` apart from duplicate names: every surrogate escape is half of a pair -/
+def pairedOk : PVal → Bool
+  | .str raw _ => surrogatesPaired raw
+  | .arr xs => pairedOkList xs
+  | .obj kvs => pairedOkMembers kvs
+  | _ => true
+def pairedOkList : List PVal → Bool
+  | [] => true
+  | x :: xs => pairedOk x && pairedOkList xs
+def pairedOkMembers : List (Bytes × Bytes × PVal) → Bool
+  | [] => true
+  | (raw, _, v) :: kvs => surrogatesPaired raw && pairedOk v && pairedOkMembers kvs
+end
+
+/-- `checkStrictJSON(message, true) == nil`: the gate of VerifyJSON -/
 def strictJSON (t : Bytes) : Bool :=
   match parse t with
   | none => false                       -- gjson.ValidBytes
   | some p => p.wellFormed && p.noDupKeys
+
+/-- `checkStrictJSON(message, false) == nil`: the gate of SignJSON (no UTF-8 clause) -/
+def signStrictJSON (t : Bytes) : Bool :=
+  match parse t with
+  | none => false
+  | some p => pairedOk p && p.noDupKeys
 
 /-- the error of the gate (any error of SignJSON / VerifyJSON before the signature is looked at) -/
 def errAmbiguous : Err := .other "json"
@@ -321,7 +348,7 @@ def errAmbiguous : Err := .other "json"
 def signJSONText (S : SigScheme) (name kid : Bytes) (sk : S.SK) (t : Bytes) : Except Err JVal :=
   match parse t with
   | none => .error errAmbiguous
-  | some p => if !(p.wellFormed && p.noDupKeys) then .error errAmbiguous else signJSON S name kid sk p.toJVal
+  | some p => if !(pairedOk p && p.noDupKeys) then .error errAmbiguous else signJSON S name kid sk p.toJVal
 
 /-- Model of `VerifyJSON(name, kid, pk, message)` on the message TEXT. -/
 def verifyJSONText (S : SigScheme) (name kid pk : Bytes) (t : Bytes) : Except Err Unit :=
@@ -409,6 +436,15 @@ def definitePayload : PVal → Bool
     let pm := kvs.filter (fun m => m.2.1 != kSignatures && m.2.1 != kUnsigned)
     noDupIn (pm.map (·.2.1)) && wellFormedMembers pm && noDupKeysMembers pm
   | p => p.wellFormed && p.noDupKeys
+
+/-- The same without the UTF-8 clause (duplicate names / unpaired surrogate escapes among the signed members): where
+    this fails the specification demands that SignJSON refuses.  (Signing a text that is not valid UTF-8 is outside
+    the property: JSON texts are Unicode.) -/
+def definitePayloadSign : PVal → Bool
+  | .obj kvs =>
+    let pm := kvs.filter (fun m => m.2.1 != kSignatures && m.2.1 != kUnsigned)
+    noDupIn (pm.map (·.2.1)) && pairedOkMembers pm && noDupKeysMembers pm
+  | p => pairedOk p && p.noDupKeys
 
 end Spec
 
